@@ -52,6 +52,11 @@ def gen(rng, tier, n):
             rng.shuffle(kv)
             j2 = gv.Obj(kv)
         x, y = gv.represent(rng, j1), gv.represent(rng, j2)
+        if isinstance(x, dict) and rng.random() < 0.3:
+            # both sides of one and the same Go type (identical array / slice / map / pointer types take their own paths in equalValue)
+            y2 = gv.represent_as(rng, j2, x["t"])
+            if y2 is not None:
+                y = y2
         if rng.random() < 0.5:
             x, y = y, x
             j1, j2 = j2, j1
